@@ -24,6 +24,7 @@ S = 'pybufrkit/script.py'
 C = 'pybufrkit/constants.py'
 D = 'pybufrkit/descriptors.py'
 U = 'pybufrkit/utils.py'
+E = 'pybufrkit/encoder.py'
 
 MUTS = [
     # ---- stage A: constants ------------------------------------------------------------------
@@ -81,6 +82,15 @@ MUTS = [
     ('C14', 'preserve', 'C18', S, "            if c == '}':\n                state = STATE_IDLE\n", "            if c == '}':\n                state = ''\n"),
     ('C15', 'preserve', 'C18', S, "        elif c == '\\n' and state == STATE_COMMENT:\n            state = STATE_IDLE\n            keep.append(c)\n\n        else:\n            keep.append(c)\n",
      "        else:\n            if c == '\\n' and state == STATE_COMMENT:\n                state = STATE_IDLE\n            keep.append(c)\n"),
+    # ---- w5-smallsrc, stage D: small self-contained functions ------------------------------------
+    # encoder.py nbits_for_uint
+    ('D1', 'change', 'C02', E, "binx = bin(x)[2:]", "binx = bin(x)[1:]"),
+    ('D2', 'change', 'C02', E, "    if binx.count('1') == len(binx):\n        nbits += 1", "    if binx.count('1') == len(binx) + 1:\n        nbits += 1"),
+    ('D3', 'change', 'C05', E, "    if binx.count('1') == len(binx):\n        nbits += 1", "    if binx.count('1') == len(binx):\n        nbits += 2"),
+    ('D4', 'change', 'C02', E, "    if binx.count('1') == len(binx):\n        nbits += 1", "    if binx.count('0') == len(binx):\n        nbits += 1"),
+    ('D5', 'unsupported', 'C02', E, "binx = bin(x)[2:]", "binx = '{:b}'.format(x)"),
+    ('D6', 'preserve', 'C02', E, "    nbits = len(binx)\n", "    nbits = 0\n    nbits += len(binx)\n"),
+    ('D7', 'preserve', 'C02', E, "    if binx.count('1') == len(binx):\n        nbits += 1", "    if binx.count('0') == 0:\n        nbits += 1"),
 ]
 
 
